@@ -112,8 +112,8 @@ FLOORS = {
     "C17": {"evaluations": {"quick": 10000, "thorough": 100000}, "distinct": 2000, "sum:c17_forgot_": 2000, "c17_forgot_drain": 300, "c17_further_use_ops": 2000, "c17_caches_dropped_after_forget": 1000},
     "C18": {"evaluations": 128, "distinct": 128, "c18_table_rows": 64, "c18_rows_expected_send": 8, "c18_rows_expected_not_send": 56, "c18_moved_across_threads": 20, "c18_nonstatic_exercise_runs": 1},
     "C19": {"evaluations": {"quick": 5000, "thorough": 80000}, "distinct": 100, "c19_shared_ops_under_write_trap": 500000, "c19_thread_runs_under_write_trap": 10000, "c19_state_empty": 50, "c19_state_single": 50,
-            "c19_state_tombstoned": 50, "c19_state_const_hasher": 200, "c19_thread_runs_race_detector": 20, "max:c19_max_len": 30},
-    "C20": {"evaluations": {"quick": 300000, "thorough": 10000000}, "distinct": 150, "c20_rebuilds": 2000, "c20_with_departures": 5000, "c20_scale_ops_n16384": 5000, "c20_scale_ops_n1024": 5000, "c20_scale_rebuilds": 500},
+            "c19_state_tombstoned": 50, "c19_state_const_hasher": 200, "c19_thread_runs_race_detector": 20, "max:c19_max_len": 30, "c19_deep_states": 50, "max:c19_deep_state_max_colliding_len": 4000},
+    "C20": {"evaluations": {"quick": 300000, "thorough": 10000000}, "distinct": 150, "c20_rebuilds": 2000, "c20_with_departures": 5000, "c20_scale_ops_n16384": 5000, "c20_scale_ops_n1024": 5000, "c20_scale_rebuilds": 500, "c20_scale_mass_ejections": 1000, "max:c20_scale_mass_ejection_max_departures": 10000},
     "C08": {"evaluations": {"quick": 500000, "thorough": 20000000}, "distinct": 3000, "c08_bulk_shapes_checked": 100000, "c08_totality_cases_debug0": 36, "c08_totality_cases_native": 18, "c08_measured_while_locked_elsewhere": 10, "c08_values_with_user_defined_leaves": 10000},
     "C09": {"evaluations": {"quick": 100000, "thorough": 4000000}, "distinct": 400, "c09_exact_values": 80000, "c09_bounded_values": 5000, "c09_values_holding_memory": 50000},
     "C10": {"evaluations": {"quick": 100000, "thorough": 3000000}, "distinct": 40, "each:c10_": 100},
